@@ -22,6 +22,8 @@ const repoMod = "github.com/enbility/spine-go"
 
 // Prog is the loaded and resolved program, shared by all engines.
 type Prog struct {
+	stableMemo map[*ssa.Function]string
+	instances  map[*ssa.Function][]*ssa.Function
 	RepoDir string
 	Fset    *token.FileSet
 	Pkgs    map[string]*packages.Package // by import path (repo packages and their deps)
@@ -105,6 +107,7 @@ func Load(o LoadOpts) *Prog {
 	if o.NeedSSA {
 		p.buildSSA(pkgs)
 	}
+	curProg = p
 	return p
 }
 
@@ -380,6 +383,10 @@ func (p *Prog) InstrPos(ins ssa.Instruction) string {
 }
 
 // FnName is a stable, short, position-free name for a function.
+// curProg is the program being analysed (one per process); used where a key
+// builder has no Prog at hand.
+var curProg *Prog
+
 func FnName(f *ssa.Function) string {
 	if f == nil {
 		return "<nil>"
@@ -387,6 +394,110 @@ func FnName(f *ssa.Function) string {
 	s := f.String()
 	s = strings.ReplaceAll(s, repoMod+"/", "")
 	return s
+}
+
+// StableName names a function for obligation keys in a way that survives the
+// renaming of unexported helpers: an exported function (or a method of an
+// exported type with an exported name) keeps its name; an unexported one is
+// named after its position in the call structure, "<stable name of its
+// alphabetically first caller>~<k>", k counting the distinct unexported
+// repository callees of that caller in instruction order.
+func (p *Prog) StableName(fn *ssa.Function) string {
+	return p.stableName(originOf(fn), 0)
+}
+
+func isExportedFn(fn *ssa.Function) bool {
+	if fn.Object() == nil || !fn.Object().Exported() {
+		return false
+	}
+	if recv := fn.Signature.Recv(); recv != nil {
+		if n := namedOf(recv.Type()); n != nil && !n.Obj().Exported() {
+			return false
+		}
+	}
+	return true
+}
+
+func (p *Prog) stableName(fn *ssa.Function, depth int) string {
+	if fn == nil {
+		return "<nil>"
+	}
+	if p.stableMemo == nil {
+		p.stableMemo = map[*ssa.Function]string{}
+	}
+	if s, ok := p.stableMemo[fn]; ok {
+		return s
+	}
+	if isExportedFn(fn) || depth > 4 || fn.Parent() != nil || fn.Object() == nil {
+		return FnName(fn)
+	}
+	p.stableMemo[fn] = FnName(fn) // cycle guard
+	best := ""
+	if p.instances == nil {
+		p.instances = map[*ssa.Function][]*ssa.Function{}
+		for f := range p.AllFns {
+			if o := f.Origin(); o != nil {
+				p.instances[o] = append(p.instances[o], f)
+			}
+		}
+	}
+	var sites []ssa.CallInstruction
+	sites = append(sites, p.Callers(fn)...)
+	for _, inst := range p.instances[fn] {
+		sites = append(sites, p.Callers(inst)...)
+	}
+	for _, site := range sites {
+		if site.Common().StaticCallee() == nil || originOf(site.Common().StaticCallee()) != fn {
+			continue
+		}
+		caller := originOf(site.Parent())
+		for caller.Parent() != nil {
+			caller = caller.Parent()
+		}
+		if caller == fn {
+			continue
+		}
+		cn := p.stableName(caller, depth+1)
+		// ordinal of fn among the distinct unexported repository callees of the caller
+		seen := map[*ssa.Function]bool{}
+		k, found := 0, 0
+		body := site.Parent()
+		for body.Parent() != nil {
+			body = body.Parent()
+		}
+		var walk func(f *ssa.Function)
+		walk = func(f *ssa.Function) {
+			for _, b := range f.Blocks {
+				for _, ins := range b.Instrs {
+					if ci, ok := ins.(ssa.CallInstruction); ok {
+						if c := ci.Common().StaticCallee(); c != nil {
+							oc := originOf(c)
+							if !seen[oc] && !isExportedFn(oc) && oc.Object() != nil && strings.HasPrefix(fnPkgPath(oc), repoMod) {
+								seen[oc] = true
+								k++
+								if oc == fn {
+									found = k
+								}
+							}
+						}
+					}
+				}
+			}
+			for _, an := range f.AnonFuncs {
+				walk(an)
+			}
+		}
+		walk(body)
+		name := fmt.Sprintf("%s~%d", cn, found)
+		if best == "" || name < best {
+			best = name
+		}
+	}
+	if best == "" {
+		best = FnName(fn)
+	}
+	p.stableMemo[fn] = best
+	return best
 }
 
 // RepoFns returns all repository functions with bodies, sorted.
